@@ -95,7 +95,36 @@ def types_to_dist_func():
     raise ValueError('TYPES_TO_DIST_FUNC not found')
 
 
-GENERATORS = [safe_to_import, find_class_shape, types_to_dist_func]
+def delta_phases():
+    """the `self._do_*()` calls inside Delta.__add__, in order"""
+    t = ast.parse(_src('delta.py'))
+    for node in t.body:
+        if isinstance(node, ast.ClassDef) and node.name == 'Delta':
+            for fn in node.body:
+                if isinstance(fn, ast.FunctionDef) and fn.name == '__add__':
+                    calls = []
+                    for st in ast.walk(fn):
+                        if isinstance(st, ast.Expr) and isinstance(st.value, ast.Call) and isinstance(st.value.func, ast.Attribute) \
+                                and isinstance(st.value.func.value, ast.Name) and st.value.func.value.id == 'self' and st.value.func.attr.startswith('_do_'):
+                            calls.append((st.lineno, st.value.func.attr))
+                    calls.sort()
+                    out = ['/-- the phases of `Delta.__add__`, in call order -/',
+                           'def deltaPhases : List String := ' + lean_list([lean_str(c) for _, c in calls]), '']
+                    rs = None
+                    for fn2 in node.body:
+                        if isinstance(fn2, ast.FunctionDef) and fn2.name == '_get_reverse_diff':
+                            for st in ast.walk(fn2):
+                                if isinstance(st, ast.Assign) and any(isinstance(x, ast.Name) and x.id == 'SIMPLE_ACTION_TO_REVERSE' for x in st.targets) and isinstance(st.value, ast.Dict):
+                                    rs = sorted(ast.literal_eval(st.value).items())
+                    if rs is None:
+                        raise ValueError('SIMPLE_ACTION_TO_REVERSE not found')
+                    out += ['/-- `SIMPLE_ACTION_TO_REVERSE` as written (it is then closed under inversion) -/',
+                            'def simpleActionToReverse : List (String × String) := ' + lean_list(['(%s, %s)' % (lean_str(a), lean_str(b)) for a, b in rs]), '']
+                    return out
+    raise ValueError('Delta.__add__ not found')
+
+
+GENERATORS = [safe_to_import, find_class_shape, types_to_dist_func, delta_phases]
 
 
 def generate():
